@@ -9,7 +9,10 @@ against the six real front-ends; (b) composed(): on generated line sequences the
 a tag block queue) against IterMessages / NMEAQueue per line, and the extracted decode_api on the part lines of every message
 (arrival order and reversed) against pyais.decode_nmea_and_ais attribute by attribute.  Model/Socket.v is tied by C06's run.
 Oracle: pairwise equality of the delivered sequences (raw, payload, bits, validity, wrapper fields, tag block) of the six
-front-ends; decode(*parts) against .decode() of the delivered sentence."""
+front-ends; decode(*parts) against .decode() of the delivered sentence.
+Backpressure extension (C07_bounded_queue): wherever NMEAQueue is a front-end the same lines also go into a bounded
+NMEAQueue(maxsize=k) with non-blocking puts (stream_common.py, "bounded NMEAQueue"); what comes out must be, line by line, what
+the unbounded reference and the first front-end deliver at the accepted lines."""
 import os
 import sys
 
@@ -25,8 +28,9 @@ RULE = ('line sequences built by the harness from K messages (1..9 fragments, ra
         'lines, foreign NMEA lines and malformed lines, plus the boundary sequences of DESIGN.md section 5; every sequence goes '
         'through IterMessages, ByteStream, BinaryIOStream, FileReaderStream, SocketStream (scripted recv) and NMEAQueue, with and '
         'without a TagBlockQueue; a case = (front-end, tbq, terminator, line list); distinct = distinct such tuples; thorough tier '
-        'adds all arrival orders of small message sets')
-ASSUMPTIONS = ['loop-level theorems (C07_queue_step_eq, C07_runs_*, C03, C18) quantify over the per-line outcomes of '
+        'adds all arrival orders of small message sets' + sc.RULE_BOUNDED)
+ASSUMPTIONS = [sc.ASSUMPTION_BOUNDED,
+               'loop-level theorems (C07_queue_step_eq, C07_runs_*, C03, C18) quantify over the per-line outcomes of '
                'NMEASentenceFactory.produce / TagBlockQueue.put_sentence, and correspondence (a) feeds the extracted loops the REAL '
                'outcomes; the theorems of part 2 are over byte lines through the modelled parser and tag block queue, tied by '
                'correspondence (b) here and by the parser / tag-block harnesses of C05, C10, C16, C17',
